@@ -12,6 +12,7 @@ import (
 	"verif/harness/fontcmp"
 	genfont "verif/harness/gen/font"
 	"verif/harness/guard"
+	"verif/harness/ref/refcff"
 	"verif/harness/stats"
 )
 
@@ -147,4 +148,138 @@ func TestC18BareCFF(t *testing.T) {
 			}, lab)
 		}
 	})
+}
+
+// TestC18ForeignCFF is the truncation clause for bare CFF programs as other
+// producers write them (assembled by the harness's own CFF writer): global
+// and local subroutine INDEXes that no glyph calls, INDEX data areas larger
+// than the reader's 1 KiB buffer, offSize 1-4, a gap between the Private
+// DICTs and the local subroutines.  In these files every byte lies inside a
+// structure the format declares and that is referenced from the Top DICT or
+// a Private DICT, and the last declared structure ends exactly at the end of
+// the file, so a source cut short at ANY k < len must be rejected ("truncated
+// anywhere inside its table data"); a source that fails (rather than ends) at
+// k may alternatively give exactly the font the complete source gives.
+func TestC18ForeignCFF(t *testing.T) {
+	rapid.Check(t, func(t *rapid.T) {
+		filler := func(lab string, n int) []byte {
+			seed := rapid.Uint64().Draw(t, lab)
+			b := make([]byte, n)
+			for i := range b {
+				seed = seed*6364136223846793005 + 1442695040888963407
+				b[i] = byte(seed >> 56)
+			}
+			if n > 0 {
+				b[n-1] = 11 // return
+			}
+			return b
+		}
+		sizes := func(lab string) [][]byte {
+			var res [][]byte
+			for i := rapid.IntRange(0, 4).Draw(t, lab+"N"); i > 0; i-- {
+				n := rapid.SampledFrom([]int{1, 2, 30, 600, 1023, 1024, 1025, 1500, 2100}).Draw(t, lab+"Len")
+				res = append(res, filler(lab+"Fill", n))
+			}
+			return res
+		}
+		spec := refcff.Spec{FontName: "Foreign", IndexOffSize: rapid.SampledFrom([]int{0, 0, 2, 3, 4}).Draw(t, "offSize"),
+			Gap: rapid.SampledFrom([]int{0, 0, 3, 1100}).Draw(t, "gap")}
+		spec.GSubrs = sizes("gsubr")
+		nGlyphs := rapid.IntRange(1, 6).Draw(t, "nGlyphs")
+		for i := 0; i < nGlyphs; i++ {
+			// [dx dy rmoveto] [dx dy rlineto]* endchar, no subroutine calls
+			cs := []byte{139 + byte(i), 139, 21}
+			for k := rapid.IntRange(0, 3).Draw(t, "nLines"); k > 0; k-- {
+				cs = append(cs, byte(rapid.IntRange(32, 246).Draw(t, "dx")), byte(rapid.IntRange(32, 246).Draw(t, "dy")), 5)
+			}
+			spec.CharStrings = append(spec.CharStrings, append(cs, 14))
+		}
+		spec.CID = rapid.Bool().Draw(t, "cid")
+		nFD := 1
+		if spec.CID {
+			nFD = rapid.IntRange(1, 3).Draw(t, "nFD")
+			spec.FDSelectFormat = rapid.SampledFrom([]int{0, 3}).Draw(t, "fdSelectFormat")
+			for i := 0; i < nGlyphs; i++ {
+				spec.FDSelect = append(spec.FDSelect, rapid.IntRange(0, nFD-1).Draw(t, "fd"))
+			}
+		}
+		for i := 0; i < nFD; i++ {
+			spec.FDs = append(spec.FDs, refcff.FDSpec{Subrs: sizes(fmt.Sprintf("lsubr%d", i)), DefaultWidthX: 500})
+		}
+		// the last FD always has a Subrs INDEX that ends the file
+		if last := &spec.FDs[nFD-1]; len(last.Subrs) == 0 {
+			last.Subrs = [][]byte{filler("tail", rapid.SampledFrom([]int{1, 700, 1800}).Draw(t, "tailLen"))}
+		}
+		var b []byte
+		if pn := guard.Try(func() { b = refcff.Build(spec) }); pn != nil {
+			t.Skip("not assembled")
+		}
+		L := len(b)
+		clean, err := cff.Read(bytes.NewReader(b))
+		if err != nil {
+			// the harness's writer and the library disagree on a complete file: C05/C13 judge that
+			stats.Label("foreign-cff", "complete-file-rejected")
+			t.Skip("complete file rejected: " + err.Error())
+		}
+		want := fontcmp.Dump(clean)
+		big := false
+		for _, ss := range append([][][]byte{spec.GSubrs}, func() (r [][][]byte) {
+			for _, fd := range spec.FDs {
+				r = append(r, fd.Subrs)
+			}
+			return
+		}()...) {
+			total := 0
+			for _, s := range ss {
+				total += len(s)
+			}
+			big = big || total > 1024
+		}
+		all := stats.Thorough() && L <= 4000
+		for _, k := range faultPoints(t, L, nil, all) {
+			if k >= L {
+				continue
+			}
+			for _, chunk := range []int{0, 5, 700} {
+				var err error
+				r := &seekFault{data: b, size: k, limit: k, chunk: chunk}
+				if pn := guard.Try(func() { _, err = cff.Read(r) }); pn != nil {
+					t.Fatalf("truncated at %d of %d (chunk %d): cff.Read panicked: %s\n%s", k, L, chunk, pn, pn.Stack)
+				}
+				if err == nil {
+					t.Fatalf("cff.Read accepts a font program cut short at byte %d of %d (source delivers %d bytes per call; the file's last declared structure ends at %d): spec=%+v", k, L, chunk, L, specSummary(spec))
+				}
+			}
+			var g *cff.Font
+			r := &seekFault{data: b, size: L, limit: k, chunk: 0}
+			if pn := guard.Try(func() { g, err = cff.Read(r) }); pn != nil {
+				t.Fatalf("fault at %d of %d: cff.Read panicked: %s\n%s", k, L, pn, pn.Stack)
+			}
+			if err == nil && fontcmp.Dump(g) != want {
+				t.Fatalf("fault at %d of %d: cff.Read succeeded with a different font than the complete source gives", k, L)
+			}
+			lab := "index-data<=1KiB"
+			if big {
+				lab = "index-data>1KiB"
+			}
+			stats.CaseIn("foreign-cff", stats.Hash(b, k), k > 4, func() string {
+				return fmt.Sprintf("harness-written CFF (%s): truncation/fault at %d of %d", specSummary(spec), k, L)
+			}, lab, fmt.Sprintf("offSize-%d", spec.IndexOffSize))
+		}
+	})
+}
+
+func specSummary(s refcff.Spec) string {
+	lens := func(ss [][]byte) []int {
+		var r []int
+		for _, x := range ss {
+			r = append(r, len(x))
+		}
+		return r
+	}
+	out := fmt.Sprintf("cid=%v glyphs=%d offSize=%d gap=%d gsubrs=%v", s.CID, len(s.CharStrings), s.IndexOffSize, s.Gap, lens(s.GSubrs))
+	for i, fd := range s.FDs {
+		out += fmt.Sprintf(" subrs[%d]=%v", i, lens(fd.Subrs))
+	}
+	return out
 }
